@@ -214,6 +214,10 @@ var c18Swaps = [][2]string{
 	{"Enum8('a' = 1, 'b' = 2, 'c' = -3)", "Enum8('a' = 1, 'b' = 2)"}, {"DateTime64(3)", "DateTime64(6, 'UTC')"}, {"DateTime", "DateTime('UTC')"},
 	{"Array(Enum8('a' = 1, 'b' = 2))", "Array(Enum8('a' = 1, 'b' = 2, 'c' = -3))"}, {"Map(String, String)", "Map(String, UInt64)"}, {"Float32", "Float64"}, {"UUID", "FixedString(16)"}, {"IPv6", "FixedString(16)"},
 	{"Tuple(String, Int64)", "Tuple(String, UInt8)"}, {"Int128", "UInt128"}, {"Bool", "UInt8"}, {"Nothing", "UInt8"},
+	// the same leading elements, one side longer; the same element types in another order; maps with another key / value
+	{"Tuple(String, Int64)", "Tuple(String)"}, {"Tuple(String, Int64)", "Tuple(String, Int64, UInt8)"}, {"Tuple(String, Int64)", "Tuple(Int64, String)"},
+	{"Tuple(Int8)", "Tuple(Int8, Int8)"}, {"Map(String, Int64)", "Map(String, Int32)"}, {"Map(String, Int64)", "Map(FixedString(8), Int64)"},
+	{"Array(Tuple(String, Int64))", "Array(Tuple(String))"},
 }
 
 // the same targets receive blocks whose enum definition changes from block to block (renumbered, renamed, extended):
